@@ -67,6 +67,25 @@ theorem faceHas_of_allZ (lat : Lattice) (s loc : Loc) (h : ∀ e ∈ lat.stabOp 
     rfl
   rw [this, Bool.and_false]
 
+/-- on a lattice without seam (`code.id != 'RotatedToric3DCode'`) `_wrap` is the identity -/
+theorem wrapRot_noSeam (lat : Lattice) (h : lat.rotSeam = false) (l : Loc) : wrapRot lat l = l := by
+  simp [wrapRot, h]
+
+theorem flipFacesRot_noSeam (lat : Lattice) (h : lat.rotSeam = false) (edge : Loc) :
+    flipFacesRot lat edge = (rawFacesRot edge).map fun fs => fs.filter lat.isStabFace := by
+  unfold flipFacesRot
+  have : wrapRot lat = id := by funext l; exact wrapRot_noSeam lat h l
+  rw [this]
+  simp
+
+theorem sweepFacesRot_noSeam (lat : Lattice) (h : lat.rotSeam = false) (v : Loc) (sd : SweepDir) :
+    sweepFacesRot lat v sd = oldSweepFacesRot v sd := by
+  simp [sweepFacesRot, wrapRot_noSeam lat h]
+
+theorem sweepEdgesRot_noSeam (lat : Lattice) (h : lat.rotSeam = false) (v : Loc) (sd : SweepDir) :
+    sweepEdgesRot lat v sd = oldSweepEdgesRot v sd := by
+  simp [sweepEdgesRot, wrapRot_noSeam lat h]
+
 /-! ### membership in the coordinate lists -/
 
 theorem mem_rotPlanarQubits (Lx Ly Lz : Nat) (x y z : Int) :
@@ -130,6 +149,20 @@ theorem rotPlanar_isStabFace_of_mem (Lx Ly Lz : Nat) (s : Loc) (hs : s ∈ rotPl
     (rotPlanar3D Lx Ly Lz).isStabFace s = rotIsFace s := by
   have : (rotPlanarStabs Lx Ly Lz).contains s = true := List.contains_iff_mem.mpr hs
   simp only [Lattice.isStabFace, rotPlanar3D, this, Bool.true_and]
+
+/-! ### `stabilizer_type` of both rotated codes -/
+
+theorem rotIsFace_vertex (a b c : Int) (pc : c % 2 = 1) (h4 : (a + b) % 4 = 2) :
+    rotIsFace (a, b, c) = false := by
+  simp only [rotIsFace, xyMod4, h4, pc, beq_self_eq_true, Bool.and_self, Bool.not_true]
+
+theorem rotIsFace_hface (a b c : Int) (h4 : (a + b) % 4 = 0) : rotIsFace (a, b, c) = true := by
+  have e02 : ((0 : Int) == 2) = false := by decide
+  simp only [rotIsFace, xyMod4, h4, e02, Bool.false_and, Bool.not_false]
+
+theorem rotIsFace_vface (a b c : Int) (pc : c % 2 = 0) : rotIsFace (a, b, c) = true := by
+  have e01 : ((0 : Int) == 1) = false := by decide
+  simp only [rotIsFace, pc, e01, Bool.and_false, Bool.not_false]
 
 /-! ### the branch taken by `flip_edge` -/
 
